@@ -510,10 +510,13 @@ start:
 			case *ir.MultiConvert:
 				s.set(v, s.get(v.X))
 			case *ir.Load:
+				// We know nothing about the loaded value. If it is an
+				// interface, that includes the value stored in it: leaving
+				// Inner unset would make it the identity of later merges.
 				if _, ok := v.X.(*ir.Global); ok {
-					s.setOuter(v, MaybeNilGlobal)
+					s.set(v, ValueNilness{Inner: MaybeNil, Outer: MaybeNilGlobal})
 				} else {
-					s.setOuter(v, MaybeNil)
+					s.set(v, ValueNilness{Inner: MaybeNil, Outer: MaybeNil})
 				}
 				s.setOuter(v.X, NeverNil)
 			case *ir.FieldAddr:
